@@ -304,7 +304,18 @@ def op_complete_prefix_to_token(rng, m):
 
 
 def op_system_nongenerable(rng, m):
-    return "system", m.to_text() + ".|30%|CCO.|70%|", "nongenerable"
+    t = m.to_text()
+    if rng.random() < 0.5:
+        # the same component texts were part of a DETERMINED system a moment ago (same process): nothing of it may make this one generable
+        import gbigsmiles
+
+        for planted in (t + ".|30%|CCO.|700|", t + ".|30%|CCO.|70%|"):
+            try:
+                gbigsmiles.System(planted, 1000.0)
+                gbigsmiles.System(planted)
+            except Exception:
+                pass
+    return "system", t + ".|30%|CCO.|70%|", "nongenerable"
 
 
 OPS = {
